@@ -54,9 +54,14 @@ class BinnifyEach(Contract):
         }
 
 
-def _widths_ok(off, start, end, c_lo, c_hi, b):
-    """every non-last bin of chromosomes [c_lo, c_hi) has width b"""
-    return forall(c_lo, c_hi, lambda c: forall(off[c], off[c + 1] - 1, lambda k: end[k] - start[k] == b))
+def _is_nonlast(off, chrom, k):
+    """bin k is not the last bin of its chromosome"""
+    return k + 1 < off[chrom[k] + 1]
+
+
+def _widths_ok(off, chrom, start, end, hi, b):
+    """every non-last bin among the first ``hi`` bins has width b (flat form)"""
+    return forall(0, hi, lambda k: Implies(_is_nonlast(off, chrom, k), end[k] - start[k] == b))
 
 
 @contract
@@ -76,7 +81,8 @@ class GetBinsize(Contract):
             chrom = v.Arr("bins.chrom", n=start.n)
             clen = v.Arr("clen", n=nchrom)
             return dict(bins=_frame(v, nchrom, off, start, end, chrom),
-                        __ghost__={"nchrom": nchrom, "off": off, "start": start, "end": end, "clen": clen})
+                        __ghost__={"nchrom": nchrom, "off": off, "start": start, "end": end, "clen": clen,
+                                   "chrom": chrom})
         yield "", f
 
     def _g(self):
@@ -84,22 +90,30 @@ class GetBinsize(Contract):
 
     def requires(self, bins):
         g = self._g()
-        return [valid_bins(g["nchrom"], g["off"], g["start"], g["end"], g["clen"])]
+        # weakest precondition: only the grouping structure and non-empty bins are needed
+        # (both follow from valid_bins by instantiation)
+        nb = L(g["start"])
+        return [bins_grouped(g["nchrom"], g["off"], g["chrom"], nb), L(g["end"]) == nb,
+                forall(0, nb, lambda k: g["start"][k] < g["end"][k])]
 
     # loop 0: for _chrom, group in bins.groupby("chrom", observed=True)
     def _inv(self, S):
         g = self._g()
-        off, start, end = g["off"], g["start"], g["end"]
+        off, start, end, chrom = g["off"], g["start"], g["end"], g["chrom"]
         c = S.it
         sz = S.sizes
-        nonlast = lambda cc: off[cc + 1] - 1 - off[cc]
-        return {
+        done = off[c]         # bins of the chromosomes processed so far: [0, off[c])
+        inv = {
             "card-le-1": And(sz.card >= 0, sz.card <= 1),
-            "singleton-is-the-common-width": Implies(sz.card == 1, _widths_ok(off, start, end, 0, c, sz.elem)),
-            "empty-iff-no-nonlast-bins": Implies(sz.card == 0, forall(0, c, lambda cc: nonlast(cc) == 0)),
-            "nonempty-has-witness": Implies(sz.card == 1, And(0 <= S.wit, S.wit < c, nonlast(S.wit) > 0)),
-            "max-last-bounds-every-last-bin": forall(0, c, lambda cc: end[off[cc + 1] - 1] - start[off[cc + 1] - 1] <= S.max_last),
+            "singleton-is-the-common-width": Implies(sz.card == 1, _widths_ok(off, chrom, start, end, done, sz.elem)),
+            "empty-iff-no-nonlast-bins": Implies(sz.card == 0, forall(0, done, lambda k: Not(_is_nonlast(off, chrom, k)))),
+            "nonempty-has-witness": Implies(sz.card == 1, And(0 <= S.wit, S.wit < done, _is_nonlast(off, chrom, S.wit))),
+            "position": And(0 <= c, c <= g["nchrom"]),
         }
+        if getattr(S, "max_last", None) is not None:
+            inv["max-last-bounds-every-last-bin"] = forall(0, done, lambda k: Implies(
+                Not(_is_nonlast(off, chrom, k)), end[k] - start[k] <= S.max_last))
+        return inv
 
     def _prepare(self, S, I):
         from pyvc.lib_builtin import SymSet
@@ -110,11 +124,11 @@ class GetBinsize(Contract):
         return {"wit": z3.IntVal(-1)}
 
     def _ghost_step(self, S, I):
-        # ghost witness: a chromosome with a non-last bin (exists as soon as the set is non-empty)
+        # ghost witness: a non-last bin (exists as soon as the set is non-empty)
         g = self._g()
         off = g["off"]
         c = S.it - 1
-        S.set_ghost("wit", If(off[c + 1] - 1 - off[c] > 0, c, S.wit))
+        S.set_ghost("wit", If(off[c + 1] - 1 - off[c] > 0, off[c], S.wit))
 
     @property
     def loops(self):
@@ -122,15 +136,17 @@ class GetBinsize(Contract):
 
     def ensures(self, result, bins):
         g = self._g()
-        nchrom, off, start, end, clen = g["nchrom"], g["off"], g["start"], g["end"], g["clen"]
+        nchrom, off, start, end, chrom = g["nchrom"], g["off"], g["start"], g["end"], g["chrom"]
         if result is None:
             return {}
         b = result
+        nb = L(start)
         return {
-            "nonlast-bins-have-width-b": _widths_ok(off, start, end, 0, nchrom, b),
+            "nonlast-bins-have-width-b": _widths_ok(off, chrom, start, end, nb, b),
             "positive": b >= 1,
-            # the clause the property adds and the code never looks at (D2):
-            "last-bins-not-longer-than-b": forall(0, nchrom, lambda c: end[off[c + 1] - 1] - start[off[c + 1] - 1] <= b),
+            # the clause the property adds and the original code never looked at (D2, fixed in 14bf095):
+            "last-bins-not-longer-than-b": forall(0, nb, lambda k: Implies(
+                Not(_is_nonlast(off, chrom, k)), end[k] - start[k] <= b)),
         }
 
     def lemmas(self, path, v):
